@@ -114,7 +114,8 @@ Fixpoint update_spans (old : list span) (room : N) (tmask pm : N) (cp : Z) (nt :
           let newu := popcount posns' in
           let pw := Z.abs (cp - sp_beg s) in
           if orb (npv =? newu) (maxw <? pw)%Z then
-            (* cancel the term bit; the position bit stays OR-ed in, as in the source *)
+            (* cancel the term bit; the position bit stays OR-ed in, as in the source (KNOWN FINDING D27: after a
+               width rejection the stale bit shadows the position 64 further on; see Span/Span_Variant.v) *)
             let s' := {| sp_terms := N.land terms' (wnot tmask); sp_posns := posns'; sp_beg := sp_beg s; sp_end := sp_end s |} in
             let '(r, app, f, rm) := update_spans rest room tmask pm cp nt maxw full in (s' :: r, app, f, rm)
           else
